@@ -34,7 +34,7 @@ type ReplayOutcome struct {
 
 func (r *Replayer) workDir() string {
 	if r.work == "" {
-		r.work = filepath.Join(r.verif, "work", fmt.Sprintf("%s-%d", r.prop, os.Getpid()))
+		r.work = filepath.Join(outRoot, "work", fmt.Sprintf("%s-%d", r.prop, os.Getpid()))
 		os.MkdirAll(r.work, 0o755)
 	}
 	return r.work
@@ -158,7 +158,7 @@ func truncate(s string, n int) string {
 var outcomeRe = regexp.MustCompile(`VERIF-REPLAY harness=(\S+) outcome=("(?:[^"\\]|\\.)*") covers=(\{.*?\}) missing=(\[.*?\]|null)`)
 
 func (r *Replayer) Replay(h *Harness, f *Finding, tag string) (*ReplayOutcome, error) {
-	dir := filepath.Join(r.verif, "evidence", "replays", r.prop)
+	dir := filepath.Join(outRoot, "evidence", "replays", r.prop)
 	os.MkdirAll(dir, 0o755)
 	inputs := map[string]interface{}{}
 	for k, v := range f.Inputs {
